@@ -189,11 +189,38 @@ TranscodeVerdict(c) ==
            ELSE <<>>
       ELSE <<>>)
 
+\* ---- kind "sched" (C02) -----------------------------------------------------------
+(* The harness parses the document as one buffer (the first observation)   *)
+(* and under every schedule of the case: all subsets of cut positions or   *)
+(* the listed cut sets, for Write* + end, Write* with empty writes,        *)
+(* ParseReader with short reads, with and without data+EOF.  Identical     *)
+(* observations are grouped; each distinct one is recorded in full.  The   *)
+(* chunk-oblivious model has one input action (a byte), so all schedules   *)
+(* of a document are the same behaviour: the observations must coincide.   *)
+SchedVerdict(c) ==
+  LET obs == c.extra.obs
+      base == obs[1]
+      r == Ref(c.fmt, c.doc, c.numtab)
+      P == ConfProp(c.fmt) IN
+  (IF c.outcome # "ok" THEN <<"C02:outcome:" \o c.outcome>> ELSE <<>>)
+  \o (IF c.outcome = "ok" /\ base.entry # "parse" THEN <<"INFRA:baseline missing">> ELSE <<>>)
+  \o (IF c.outcome = "ok" /\ base.verdict = "ok"
+         /\ \E j \in 2..Len(obs) : obs[j].ev # base.ev \/ obs[j].verdict # "ok"
+      THEN <<"C02:events or verdict of a chunked parse differ from the whole-buffer parse">> ELSE <<>>)
+  \o (IF c.outcome = "ok" /\ base.verdict # "ok" /\ \E j \in 2..Len(obs) : obs[j].verdict # base.verdict
+      THEN <<"C02:accept/reject verdict depends on the chunking">> ELSE <<>>)
+  \o (IF c.outcome = "ok" /\ \E j \in 1..Len(obs) : obs[j].verdict = "panic"
+      THEN <<"C03:outcome:panic">> ELSE <<>>)
+  \o (IF c.outcome = "ok" /\ r.class = "complete" /\ base.verdict = "ok"
+         /\ ~SeqEquiv(ParseRules(c.fmt), Values(r.ev), Values(base.ev))
+      THEN <<P \o ":value differs from the reference value">> ELSE <<>>)
+
 \* ---- the trace machine ----------------------------------------------------------
 Verdict(c) ==
   CASE c.kind = "parse" -> ParseVerdict(c)
     [] c.kind \in {"encode", "roundtrip"} -> EncodeVerdict(c, IF c.kind = "encode" THEN "C07" ELSE "C01")
     [] c.kind = "transcode" -> TranscodeVerdict(c)
+    [] c.kind = "sched" -> SchedVerdict(c)
     [] OTHER -> <<"INFRA:unknown case kind">>
 
 Init == i = 1 /\ nfail = 0
